@@ -25,7 +25,7 @@ func init() {
 	register(&Property{ID: "C03", Run: c03Run, Replay: func(c *Ctx, cas json.RawMessage, ch []int) {
 		var k c03Case
 		json.Unmarshal(cas, &k)
-		v := fromJSON(string(k.Value))
+		v := retype(fromJSON(string(k.Value)))
 		applyCfg(Cfg{AttrPrefix: "-", KeyPrefix: "#", EscEnc: k.Esc})
 		rt.OrderPolicy = k.Pol
 		c03Check(c, v, k.Enc, k.Tags, k.Esc)
@@ -244,7 +244,7 @@ func c03Check(c *Ctx, v interface{}, enc string, tags []string, esc bool) (nontr
 		return false
 	}
 	cas := func() interface{} {
-		return c03Case{Value: json.RawMessage(jsonOf(v)), Enc: enc, Tags: tags, Esc: esc, Pol: rt.OrderPolicy}
+		return c03Case{Value: json.RawMessage(jsonOf(untype(v))), Enc: enc, Tags: tags, Esc: esc, Pol: rt.OrderPolicy}
 	}
 	shape := c03Shape(v)
 	before := dump(v)
@@ -285,15 +285,19 @@ func c03Check(c *Ctx, v interface{}, enc string, tags []string, esc bool) (nontr
 
 func c03Run(c *Ctx) {
 	mustBeDefault(c)
-	c.S.Rule = "cases = (value, encoder, tags, escaping): every JSON-shaped template with <= N nodes over keys {a, b, -x, #text} and leaves {\"s\", \" s \", \"\", 1, true, null} (lists 0-3 incl. nested and mixed, empty containers; attribute entries scalar non-null, text entries scalar incl. null) as multi-key root, single-key root (non-list value) and AnyXml argument (default and explicit tags); encoders Map.Xml, Map.XmlIndent, AnyXml, AnyXmlIndent, j2x.JsonToXml; a second family with strings of XML special characters under XMLEscapeChars(true); an attribute-heavy family (keys {a,-x,-xy,-z,#text}, two to three attributes per element, empty and non-empty values side by side); a scale family (lists of 33-1025 scalars / maps, a map with 70 keys and 40 attributes, nesting depth 100, strings of 5000 bytes). Oracle: output well formed with exactly one root, and decoding it gives the Map the reference decode prescribes for the abstract document the encoding rules denote. Ascending and descending map order; returned bytes are retained and re-checked after later calls. non-trivial = in-domain value encoded."
+	c.S.Rule = "cases = (value, encoder, tags, escaping): every JSON-shaped template with <= N nodes over keys {a, b, -x, #text} and leaves {\"s\", \" s \", \"\", 1, true, null} (lists 0-3 incl. nested and mixed, empty containers; attribute entries scalar non-null, text entries scalar incl. null) as multi-key root, single-key root (non-list value) and AnyXml argument (default and explicit tags); encoders Map.Xml, Map.XmlIndent, AnyXml, AnyXmlIndent, j2x.JsonToXml; a second family with strings of XML special characters under XMLEscapeChars(true); an attribute-heavy family (keys {a,-x,-xy,-z,#text}, two to three attributes per element, empty and non-empty values side by side); a typed-number family (int, int64, float32, uint8, uint64, json.Number, float64 with large and small exponents as element, attribute and text values, <= 4 nodes); a scale family (lists of 33-1025 scalars / maps, a map with 70 keys and 40 attributes, nesting depth 100, strings of 5000 bytes). Oracle: output well formed with exactly one root, and decoding it gives the Map the reference decode prescribes for the abstract document the encoding rules denote. Ascending and descending map order; returned bytes are retained and re-checked after later calls. non-trivial = in-domain value encoded."
 	c.S.Assumptions = []string{"attribute and text entries never stand where an element name is needed (root key, AnyXml single-key list member): outside the property's valid-XML-name premise", "reference: value -> abstract document (harness/c03.go) -> reference decode (harness/ref_xml.go)"}
 	n, n2 := 5, 4
 	if c.Thorough {
 		n, n2 = 6, 5
 	}
 	encs := []string{"Xml", "XmlIndent", "JsonToXml", "AnyXml", "AnyXmlIndent"}
+	skipJSONRoute := false // typed numbers do not survive the JSON text j2x.JsonToXml starts from
 	runAll := func(v func() interface{}, esc bool) {
 		for _, enc := range encs {
+			if skipJSONRoute && enc == "JsonToXml" {
+				continue
+			}
 			tagSets := [][]string{nil}
 			if strings.HasPrefix(enc, "AnyXml") {
 				tagSets = [][]string{nil, {"root"}, {"root", "item"}}
@@ -323,7 +327,7 @@ func c03Run(c *Ctx) {
 		leaves := []interface{}{"s", " s ", "", 1.0, true, nullLeaf{}}
 		nn := n
 		if esc {
-			leaves = []interface{}{"a&b", "<t>", "\"q\" 'r'", "s"}
+			leaves = []interface{}{"a&b", "<t>", "\"q\" 'r'", "s", "a\ufffdb"}
 			nn = n2
 		}
 		g := newGen(GenP{Keys: []string{"a", "b", "-x", "#text"}, MaxList: 3, MaxKeys: 3, EmptyList: true, EmptyMap: true, ListInList: true, Leaves: leaves})
@@ -349,6 +353,19 @@ func c03Run(c *Ctx) {
 			runAll(func() interface{} { return inst(t, nil) }, esc)
 		})
 	}
+	// typed numbers: a caller-built Map may hold numbers of any Go numeric type, and json.Number
+	applyCfg(Cfg{AttrPrefix: "-", KeyPrefix: "#"})
+	gt := newGen(GenP{Keys: []string{"a", "-x", "#text"}, MaxList: 2, MaxKeys: 3, EmptyList: false, EmptyMap: false, ListInList: false,
+		Leaves: []interface{}{int(7), int64(-9), float32(0.1), uint8(200), uint64(18446744073709551615), json.Number("1e3"), 1e21, 123456789.0, 1e-6, "s"}})
+	gt.values(4, func(t *T) {
+		probe := inst(t, nil)
+		if !c03InDomain(probe, true) || c03UnsignedAttr(probe) {
+			return
+		}
+		skipJSONRoute = true
+		runAll(func() interface{} { return inst(t, nil) }, false)
+		skipJSONRoute = false
+	})
 	// scale family: values large in one dimension (lists of 33-1025 scalars / maps, a map with 70 keys and
 	// 40 attributes, nesting depth 100, a string of 5000 bytes)
 	applyCfg(Cfg{AttrPrefix: "-", KeyPrefix: "#", EscEnc: true})
@@ -414,6 +431,33 @@ func c03HasTwoAttrs(t *T) bool {
 	for _, k := range t.Kids {
 		if c03HasTwoAttrs(k) {
 			return true
+		}
+	}
+	return false
+}
+
+// c03UnsignedAttr: an attribute entry of an unsigned Go type. The encoders document the attribute value
+// types they take (string, bool, int, int32, int64, float32, float64, json.Number, []byte) and reject others
+// with an error: outside "JSON-shaped".
+func c03UnsignedAttr(v interface{}) bool {
+	switch t := v.(type) {
+	case map[string]interface{}:
+		for k, e := range t {
+			if strings.HasPrefix(k, "-") {
+				switch e.(type) {
+				case uint8, uint64:
+					return true
+				}
+			}
+			if c03UnsignedAttr(e) {
+				return true
+			}
+		}
+	case []interface{}:
+		for _, e := range t {
+			if c03UnsignedAttr(e) {
+				return true
+			}
 		}
 	}
 	return false
